@@ -54,7 +54,8 @@ def judge(case):
     if o[0] == "budget":
         return "ok", [("emulator-step-budget-exceeded", {"budget": budget, "unrolled": P.unrolled_size()})], info
     if o[0] == "jaqal":
-        return "skipped:emulator-rejected", [], info
+        # the reference finds the program valid and well bracketed: it has visits, so it must be executed
+        return "ok", [("valid-program-not-executed", {"error": o[2], "visits-expected": len(visits)})], info
     if o[0] == "exc":
         return "ok", [("emulator-raised:" + o[1], {"error": o[2]})], info
     info["steps"] = o[2]
